@@ -23,8 +23,13 @@ func (k Keeper) ClaimVesting(ctx sdk.Context, msg *types.MsgClaimVesting) (*type
 	newClaims := sdk.Coins{}
 	var updatedVestingTokens []*types.VestingTokens
 	for _, vesting := range commitments.VestingTokens {
-		vestedSoFar := vesting.VestedSoFar(ctx)                         // tokens unlocked
-		newClaim := vestedSoFar.Sub(vesting.ClaimedAmount)              // tokens to mint or transfer
+		vestedSoFar := vesting.VestedSoFar(ctx)            // tokens unlocked
+		newClaim := vestedSoFar.Sub(vesting.ClaimedAmount) // tokens to mint or transfer
+		if newClaim.IsNegative() {
+			// a partial cancel can leave the reduced schedule behind what was already claimed
+			updatedVestingTokens = append(updatedVestingTokens, vesting)
+			continue
+		}
 		newClaims = newClaims.Add(sdk.NewCoin(vesting.Denom, newClaim)) // adding coin to mint or transfer
 		vesting.ClaimedAmount = vestedSoFar                             // updating claimed amount
 		if !vesting.ClaimedAmount.Equal(vesting.TotalAmount) {          // if ClaimedAmount == TotalAmount, it would mean all tokens has been claimed and no need to keep the vesting tokens
